@@ -1,10 +1,10 @@
 open Model
 open Conv
 open Scope
-(* scope <strict:0|1> <variant:v2|v1|v0> <plans: string over s,t,d | -> <progs: p,p,..  each a string
+(* scope <strict:0|1> <variant:v2|v1|v0> <plans: string over s,t,p,d | -> <progs: p,p,..  each a string
    over c(lose) s(top) w(ait) y(sync) d(one)> | tid tid ...
    thread ids: references 0..n-1, joiners n.. *)
-let plan_of_char = function 'd' -> PDrop | 't' -> PDetach | _ -> PStart
+let plan_of_char = function 'd' -> PDrop | 't' -> PDetach | 'p' -> PFail | _ -> PStart
 let jop_of_char = function
   | 'c' -> JClose | 's' -> JStop | 'w' -> JWait | 'y' -> JSync | _ -> JDone
 let b01 b = if b then "1" else "0"
